@@ -259,6 +259,8 @@ static void prop_richardson(Tape &t, Ctx &c) {
     LevelInfo li = level_info(step->precond());
     c.label("levels=" + std::to_string(std::min<size_t>(li.levels, 5)));
     if (cfg.coars == EMIN) { std::string why = emin_degenerate(step->precond(), cfg.eps_strong); if (!why.empty()) { c.label("emin:degenerate"); c.desc << " | emin degenerate: " << why; } }
+    // class still open after the repair (F-emin-residue, see c02_common.hpp / C02): labelled; no violation of clause (d) was found in it (450 cases), so it is asserted
+    if (cfg.coars == EMIN && !emin_degenerate(step->precond(), cfg.eps_strong, true).empty()) c.label("emin:residue-aggregate");
 
     Mat B = extract_operator(step->precond(), n);
     VF_REQUIRE(all_finite(B), "cycle operator has non-finite entries");
